@@ -1,6 +1,22 @@
 use crate::error::Error;
+use crate::parse;
 use crate::vm::vcell::VCell;
 use crate::vm::Vm;
+
+/// Two symbol spellings name the same symbol if they are identical or decode, escapes
+/// resolved as symbol->string does, to the same name.
+pub fn same_symbol_name(left: &str, right: &str) -> bool {
+    if left == right {
+        return true;
+    }
+    if !left.contains('\\') && !right.contains('\\') {
+        return false;
+    }
+    match (parse::parse_string(left), parse::parse_string(right)) {
+        (Ok(left), Ok(right)) => left == right,
+        _ => false,
+    }
+}
 
 impl Vm {
     /// eqv
@@ -45,9 +61,11 @@ impl Vm {
             (VCell::Nil, VCell::Nil) => Ok(true),
             (VCell::Pair(_, _), VCell::Pair(_, _)) => Ok(left == right),
             (VCell::Char(left), VCell::Char(right)) => Ok(left == right),
-            // symbols are interned, so two dereferenced symbols with one name are one
-            // symbol; equal? reaches this with the tail of an improper list
-            (VCell::Symbol(left), VCell::Symbol(right)) => Ok(left == right),
+            // symbols are interned by spelling, so two dereferenced symbols with one
+            // spelling are one symbol (equal? reaches this with the tail of an improper
+            // list). One name can have several spellings (+ and \x2b; as string->symbol
+            // writes it): those are the same symbol too.
+            (VCell::Symbol(left), VCell::Symbol(right)) => Ok(same_symbol_name(left, right)),
             (VCell::String(left), VCell::String(right)) => Ok(left == right),
             _ => Ok(false),
         }
